@@ -322,6 +322,35 @@ func execAccess(args []string, lines [][]string) []string {
 					return
 				}
 				o = out
+			case len(l) == 4 && l[0] == "RA":
+				req := httptest.NewRequest("GET", "/get", nil)
+				if v := unhx(l[1]); v != "" {
+					req.Header["X-Real-Ip"] = []string{v, "second-value"}
+				}
+				if v := unhx(l[2]); v != "" {
+					req.Header["X-Forwarded-For"] = []string{v}
+				}
+				req.RemoteAddr = unhx(l[3])
+				out, _, ok := e.serve(req, func(c flamego.Context) string { return hx(c.RemoteAddr()) })
+				if !ok {
+					out = "nomatch"
+				}
+				o = out
+			case len(l) == 2 && l[0] == "BD":
+				body := unhx(l[1])
+				req := httptest.NewRequest("GET", "/get", strings.NewReader(body))
+				out, _, ok := e.serve(req, func(c flamego.Context) string {
+					b, err := c.Request().Body().Bytes()
+					s, err2 := c.Request().Body().String() // the reader is drained by now: "" and no error
+					if err != nil || err2 != nil || s != "" {
+						return "err"
+					}
+					return hx(string(b))
+				})
+				if !ok {
+					out = "nomatch"
+				}
+				o = out
 			case (len(l) == 3 || len(l) == 4) && l[0] == "K": // one or two Cookie header lines
 				name := unhx(l[len(l)-1])
 				req := httptest.NewRequest("GET", "/get", nil)
@@ -630,6 +659,21 @@ func genAccess(r *rand.Rand, tier string, emit Emit) {
 		}
 	}
 	rec(nil)
+	// RemoteAddr: every shape of Request.RemoteAddr (no colon, only colons, IPv6, odd bytes) x header presence
+	addrs := []string{"", ":", "::", "1.2.3.4:5", "1.2.3.4", "[::1]:2830", "::1", "host:", ":80", "a:b:c", "\xff:\x00", "[fe80::1%eth0]:443", "x"}
+	for _, a := range addrs {
+		for _, x := range []string{"", "10.0.0.9", " ", "a:b"} {
+			for _, f := range []string{"", "10.0.0.1, 10.0.0.2", ":"} {
+				op("RA %s %s %s", hx(x), hx(f), hx(a))
+			}
+		}
+	}
+	for _, s := range accessPool {
+		op("RA - - %s", hx(s))
+		op("RA - - %s", hx(s+":"+s))
+		op("RA %s %s %s", hx(s), hx(s), hx("h:1"))
+		op("BD %s", hx(s))
+	}
 	// the whole pool through everything, every accessor with and without a default
 	for _, s := range accessPool {
 		codec(s)
